@@ -105,6 +105,9 @@ func (a *Authenticator) GenerateKey(role string, expiryDuration int) (string, er
 
 var ErrTokenExpired = errors.New("token expired")
 
+// ErrTokenTooShort is returned for a token that is shorter than the AEAD nonce.
+var ErrTokenTooShort = errors.New("token too short")
+
 func (a *Authenticator) RefreshKey(apiKey string, expiryDuration int) (string, error) {
 	if expiryDuration == 0 {
 		return "", ErrExpiry
@@ -215,6 +218,9 @@ func (e encrypter) encrypt(data []byte) ([]byte, error) {
 
 func (e encrypter) decrypt(data []byte) ([]byte, error) {
 	nonceSize := e.gcm.NonceSize()
+	if len(data) < nonceSize {
+		return nil, ErrTokenTooShort
+	}
 	nonce, ciphertext := data[:nonceSize], data[nonceSize:]
 	plaintext, err := e.gcm.Open(nil, nonce, ciphertext, nil)
 	if err != nil {
